@@ -29,6 +29,10 @@ class Pool:
         self.atts = {'a%d' % k: rng.uniform(0, 0.3, size=self.B) for k in range(2)}
         self.atts['a0'] = np.zeros(self.B) if rng.random() < 0.3 else self.atts['a0']
         self.srcs = {'s%d' % k: scenes.gen_point_inside(rng, self.sides) for k in range(3)}
+        # a source that sees only part of the room: in the plane of the floor (the coplanar floor
+        # patches get nothing), and one outside the room
+        self.srcs['s3'] = np.array([0.45 * self.sides[0], 0.55 * self.sides[1], 0.0])
+        self.srcs['s4'] = np.array([-0.7, 0.4 * self.sides[1], 0.6 * self.sides[2]])
         diag = float(np.linalg.norm(self.sides))
         self.pars = {}
         for k in range(3):
@@ -56,8 +60,9 @@ class Pool:
                 'pars': {k: [float(x) for x in v] for k, v in self.pars.items()}}
 
 
-def gen_setters(rng, pool, none_prob=0.2):
-    """Setter ops covering all six walls (or none at all), in random grouping and order."""
+def gen_setters(rng, pool, none_prob=0.2, overrides=False):
+    """Setter ops covering all six walls (or none at all), in random grouping and order; with
+    `overrides`, sometimes followed by a call that re-assigns a strict subset of the walls."""
     if rng.random() < none_prob:
         ops = []
     else:
@@ -67,13 +72,16 @@ def gen_setters(rng, pool, none_prob=0.2):
             k = int(rng.integers(1, len(walls) + 1))
             grp, walls = walls[:k], walls[k:]
             ops.append(('S', sorted(int(w) for w in grp), 'm%d' % int(rng.integers(0, 4))))
+        if overrides and rng.random() < 0.4:
+            sub = sorted(int(w) for w in rng.permutation(W)[:int(rng.integers(1, W))])
+            ops.append(('S', sub, 'm%d' % int(rng.integers(0, 4))))
     if rng.random() < 0.7:
         ops.insert(int(rng.integers(0, len(ops) + 1)), ('A', 'a%d' % int(rng.integers(0, 2))))
     return ops
 
 
 def gen_history(rng, pool, with_restore=True, n_cycles=None, norecalc=False, late_setters=False):
-    ops = gen_setters(rng, pool)
+    ops = gen_setters(rng, pool, overrides=True)
     ops += [('B',)] * int(rng.choice([1, 1, 2]))
     if late_setters and rng.random() < 0.4:
         # materials / attenuation set (again) AFTER the bake, then (optionally saved and) baked again
@@ -86,7 +94,7 @@ def gen_history(rng, pool, with_restore=True, n_cycles=None, norecalc=False, lat
         ops.append(('B',))
     n_cycles = int(rng.integers(1, 4)) if n_cycles is None else n_cycles
     for _ in range(n_cycles):
-        src = 's%d' % int(rng.integers(0, 3))
+        src = 's%d' % int(rng.choice([0, 1, 2, 0, 1, 2, 3, 4]))
         ops += [('I', src)] * int(rng.choice([1, 1, 2]))
         if rng.random() < 0.5:
             # change duration with recalculate=True: first a histogram shorter than the first
